@@ -94,14 +94,18 @@ Fixpoint sops (fuel : nat) (maxc : N) (p : sp) (wire later : bytes) (ops : list 
       | 6 =>
         match set_stream p None with
         | SetOk p1 =>
-          match to_boundary (length wire + 4) maxc p1 wire [] with
+          (* [6; k; 1]: the way Request::close does it — no parse at all when the parser already stands at a record boundary,
+             so that whatever is still buffered (unread records of this request included) goes to the next request parser *)
+          match (if (a2 =? 1) && is_record_boundary p1
+                 then Some (consume_output p1 (len (output_buffer p1)), wire, output_buffer p1, 0)   (* close writes the pending replies first *)
+                 else to_boundary (length wire + 4) maxc p1 wire []) with
           | None => [[18446744073710440504]]
           | Some (p2, wire2, out2, code) =>
             if negb (code =? 0) then [[7; code]; out2]
             else
               match into_request_parser p2 with
               | ConvOk rp =>
-                match run_schedule norm_impl maxc rp (wire2 ++ take a1 later) [] with
+                match run_schedule norm_impl maxc rp (wire2 ++ take a1 later) [0] with   (* first a 0-byte call, like Token::parse_request *)
                 | SOk rp' done unfed out3 =>
                   match into_stream_parser rp' with
                   | inl p3 => [[7; 0; if done then 1 else 0]; out2; out3] ++ req_obs (sreq p3)
